@@ -79,7 +79,9 @@ def corpus(tier, seed):
         bl = [hints(rng, dict(rng.choice(sub), w=rng.choice(W8))) for _ in range(rng.randint(2, 5))]
         x = rng.sample(names + ["Z"], rng.randint(0, len(names)))
         cond, lzw = rng.choice(FLAGS)
-        cl = rng.choice([None, names, names + ["Q"]])
+        # the profile's candidate list: inferred, exact, a superset -- or an official list that does not cover every name on the ballots
+        # (write-ins, overvote markers: what remove_noncands exists for); the ballots are scrubbed of the removed names all the same
+        cl = rng.choice([None, names, names + ["Q"], names[:-1], names[1:]])
         rc(bl, x, rng.choice(["profile", "tuple"]), cond, lzw, candlist=cl)
     # ---- add_missing_cands (profile.candidates may name candidates nobody voted for)
     for _ in range(700 if q else 15000):
